@@ -161,10 +161,35 @@ def pemSuffix : Bytes := [46, 112, 101, 109]                       -- ".pem"
 def keyPemSuffix : Bytes := [46, 107, 101, 121, 46, 112, 101, 109] -- ".key.pem"
 def keySuffix : Bytes := [46, 107, 101, 121]                       -- ".key"
 
-/-- main.rs:12-16: `<name>.pem` and `<name>.key.pem` of the two base names have to be four
-    different files -/
+/-- `str::split('/')` -/
+def splitSlash : Bytes → List Bytes
+  | [] => [[]]
+  | b :: rest =>
+    if b = 47 then [] :: splitSlash rest
+    else match splitSlash rest with
+      | [] => [[b]]
+      | c :: cs => (b :: c) :: cs
+
+/-- main.rs `lexical_path`: the components of a file name with `.` and empty components dropped
+    and `name/..` resolved, and whether the name is absolute -/
+def lexicalPath (name : Bytes) : Bool × List Bytes :=
+  (name.head? == some 47,
+   (splitSlash name).foldl (fun acc c =>
+      if c == [] || c == [46] then acc
+      else if c == [46, 46] then
+        (match acc.getLast? with
+         | some l => if l != [46, 46] then acc.dropLast else acc ++ [c]
+         | none => acc ++ [c])
+      else acc ++ [c]) [])
+
+/-- the four files of a run, in the order they are created -/
+def cliOutputs (cert ca : Bytes) : List Bytes :=
+  [cert ++ keyPemSuffix, cert ++ pemSuffix, ca ++ keyPemSuffix, ca ++ pemSuffix]
+
+/-- main.rs:12-24: `<name>.pem` and `<name>.key.pem` of the two base names have to be four
+    different files — different as *files*: `./x`, `x` and `a/../x` are one file -/
 def namesCollide (cert ca : Bytes) : Bool :=
-  cert == ca || cert == ca ++ keySuffix || ca == cert ++ keySuffix
+  decide (¬ ((cliOutputs cert ca).map lexicalPath).Nodup)
 
 structure CliPlan where
   ca : CertParams
